@@ -670,6 +670,12 @@ static void worker_main(const Property &P, const CheckArgs &a, int lane, int nla
 					tl += " " + std::to_string(h);
 			if (tl.size() > 1)
 				write_all(fd, tl + "\n");
+			if (!o.schedules.empty()) {
+				std::string sl = "H";
+				for (uint64_t h : o.schedules)
+					sl += " " + std::to_string(h);
+				write_all(fd, sl + "\n");
+			}
 		}
 		for (auto &v : o.viol) {
 			json pv = v.plan.is_null() ? plan : v.plan;
@@ -762,7 +768,7 @@ int run_check(const CheckArgs &a)
 
 	Counters total;
 	uint64_t evaluations = 0, runs = 0;
-	std::unordered_set<uint64_t> distinct, states;
+	std::unordered_set<uint64_t> distinct, states, schedules;
 	std::vector<Candidate> cands;
 	std::map<std::string, uint64_t> cls_counts;
 	std::vector<json> samples;
@@ -791,6 +797,12 @@ int run_check(const CheckArgs &a)
 			}
 			s.last_done = idx;
 			s.cur_idx = -1;
+		} else if (t == 'H') {
+			std::istringstream in(line.substr(1));
+			uint64_t d;
+			while (in >> d)
+				if (schedules.size() < DISTINCT_CAP)
+					schedules.insert(d);
 		} else if (t == 'T') {
 			std::istringstream in(line.substr(1));
 			uint64_t d;
@@ -1025,6 +1037,8 @@ int run_check(const CheckArgs &a)
 		cov["samples"] = samples;
 		cov["distinct_context_states"] = states.size();
 		cov["states_measure"] = "distinct canonical dumps (whole context tree through public getters: names, types, sizes, values, titles, reset/modified markers, annotations) observed after any step of any execution";
+		cov["distinct_schedules"] = schedules.size();
+		cov["schedules_measure"] = "distinct sequences of (client, operation kind) of plans with two interleaved clients / parties (0 for properties whose plans have a single client: their schedule dimension is empty)";
 		cov["runs"] = runs;
 		cov["runs_per_hour"] = t_explore > 0 ? (uint64_t)(runs * 3600.0 / t_explore) : 0;
 		cov["seeds_per_hour"] = cov["runs_per_hour"];
